@@ -6,6 +6,8 @@ CONSTANTS
   NVals = 2
   WithEmpty = TRUE
   DevNoDedup = FALSE
+  DevSharedPrefix = FALSE
+  DevStreamInsert = FALSE
   N = 0
-INVARIANTS WellFormed LawProject LawWhere LawSets LawJoin LawSummarize LawRenameExtend
+INVARIANTS WellFormed LawProject LawWhere LawSets LawJoin LawSummarize LawRenameExtend LawIndexSpans LawInsertQuery
 CHECK_DEADLOCK FALSE
